@@ -9,6 +9,7 @@ import (
 	"os"
 	"path/filepath"
 	"sort"
+	"strings"
 	"time"
 
 	"github.com/FollowTheProcess/msg"
@@ -344,8 +345,18 @@ func (a *App) handleDefault(spokfile *file.SpokFile, runner shell.Runner) error 
 // clean is the default implementation of --clean if the user has
 // not defined a clean task in the spokfile itself.
 func (a *App) clean(spokfile *file.SpokFile) error {
+	// Output globs are only patterns until they are expanded
+	if err := spokfile.ExpandGlobs(); err != nil {
+		return err
+	}
+
 	var toRemove []string
 	for _, task := range spokfile.Tasks {
+		// All the files matching declared glob outputs
+		for _, pattern := range task.GlobOutputs {
+			toRemove = append(toRemove, spokfile.Globs[pattern]...)
+		}
+
 		// Gather up all the declared file outputs
 		for _, fileOutput := range task.FileOutputs {
 			resolved, err := filepath.Abs(fileOutput)
@@ -393,6 +404,14 @@ func (a *App) clean(spokfile *file.SpokFile) error {
 		return nil
 	}
 
+	// An output that evaluates to the spokfile, the directory it lives in (e.g. "" or ".") or
+	// anything above that would take the whole project with it, refuse before touching anything
+	for _, file := range toRemove {
+		if containsSpokfile(file, spokfile) {
+			return fmt.Errorf("Refusing to remove %s: it is or contains the spokfile at %s", file, spokfile.Path)
+		}
+	}
+
 	for _, file := range toRemove {
 		err := os.RemoveAll(file)
 		if err != nil {
@@ -402,6 +421,21 @@ func (a *App) clean(spokfile *file.SpokFile) error {
 	}
 	msg.Fsuccess(a.stream.Stdout, "Done")
 	return nil
+}
+
+// containsSpokfile reports whether removing path would remove the spokfile, that is whether
+// path is the spokfile itself, the directory it sits in or any directory above that.
+func containsSpokfile(path string, spokfile *file.SpokFile) bool {
+	path = filepath.Clean(path)
+	target := filepath.Clean(spokfile.Path)
+	if path == target {
+		return true
+	}
+	rel, err := filepath.Rel(path, target)
+	if err != nil {
+		return false
+	}
+	return rel != ".." && !strings.HasPrefix(rel, ".."+string(filepath.Separator))
 }
 
 // setStream reassigns all the app's IO streams to match the one passed in.
